@@ -221,7 +221,7 @@ theorem decides_ports (env : Env) (st : List Byte) (hc : SetCtx env st) (rid : N
   have hv : fieldN st leg.pto 2 < 65536 := by have := fieldN_lt st leg.pto 2; omega
   have e1 := step_ldx_state (env := env) hI opLoadReg16 1 leg.pto 2 0 (bs := (st.drop leg.pto).take 2)
     (hop := Or.inr (Or.inl ⟨rfl, rfl⟩)) (hd := by omega) (hk := leg.pto_le)
-    (hb := getBytes_full hc.len leg.pto 2 leg.pto_le)
+    (hb := getBytes_full hc.len leg.pto 2 leg.pto_le) (hstab := leg.pto_stable)
   have hI1 := hI.setReg 1 (BitVec.ofNat 64 (fieldN st leg.pto 2)) (by omega) (by omega) (by omega)
   have hr1 : (m.setReg 1 (BitVec.ofNat 64 (fieldN st leg.pto 2))).reg 1 = some (BitVec.ofNat 64 (fieldN st leg.pto 2)) :=
     reg_setReg_eq (by rw [hI.regsLen]; omega)
